@@ -67,8 +67,15 @@ Inject == /\ OpAllowed("inject")
           /\ \E k \in 0..Len(Flat(doc)), b \in InjectBytes :
                 doc' = NonEmpty(<<SubSeq(Flat(doc), 1, k), <<b>>, SubSeq(Flat(doc), k + 1, Len(Flat(doc)))>>)
           /\ lastop' = "inject"
+\* replace a string token ( "..." or '...' ) by the empty string "" / '', and by nothing at all (empty value)
+IsStrTok(t) == Len(t) >= 3 /\ t[1] \in {34, 39} /\ t[Len(t)] = t[1]
+EmptyStr == /\ OpAllowed("empty")
+            /\ \E i \in 1..Len(doc) : /\ IsStrTok(doc[i])
+                                      /\ \/ doc' = [doc EXCEPT ![i] = <<doc[i][1], doc[i][1]>>]
+                                         \/ doc' = SubSeq(doc, 1, i - 1) \o SubSeq(doc, i + 1, Len(doc))
+            /\ lastop' = "empty"
 Mutate == /\ phase = "Idle" /\ ops < MaxOps /\ nest = <<0, 0>>
-          /\ (Truncate \/ Dup \/ Del \/ Swap \/ Splice \/ Inject)
+          /\ (Truncate \/ Dup \/ Del \/ Swap \/ Splice \/ Inject \/ EmptyStr)
           /\ ops' = ops + 1 /\ UNCHANGED <<seed, nest, cvars>>
 \* nest the document d times inside construct c of its language (always the last operator; rendered by the harness)
 Nest == /\ phase = "Idle" /\ ops < MaxOps /\ nest = <<0, 0>> /\ OpAllowed("nest")
@@ -122,7 +129,7 @@ ErrGivesOriginal(e) ==
 
 (* ------------------------------------------------------------------ configuration values *)
 NoOps == {}
-SecondOps == {"trunc", "del", "swap", "nest"}
+SecondOps == {"trunc", "del", "swap", "nest", "empty"}
 InjAll == {0, 128, 255, 60, 38, 92, 34}                      \* 0x00 0x80 0xFF < & \ "
 InjFew == {0, 60}
 DepthsQuick == {10, 100, 1000, 10000}
